@@ -3,6 +3,7 @@ use super::job::*;
 use super::active_queue::*;
 use super::queue_state::*;
 use super::wake_thread::*;
+use super::unsafe_job::*;
 
 use std::fmt;
 #[cfg(not(logicalshift_desync_verif))]
@@ -48,7 +49,7 @@ pub (super) struct JobQueueCore {
     pub (super) state: QueueState,
 
     /// If something is blocked on this queue, a condition variable to wake it up
-    pub (super) wake_blocked: Vec<Weak<Condvar>>,
+    pub (super) wake_blocked: Vec<(Weak<Condvar>, Weak<Mutex<BackgroundWait>>)>,
 }
 
 impl fmt::Debug for JobQueue {
